@@ -181,15 +181,21 @@ pub fn inv_mod<const BITS: usize, const LIMBS: usize>(
             swap(&mut t0, &mut t1);
             even = !even;
         } else {
+            #[cfg(feature = "recmo_uint_verif")]
+            crate::verif_hooks::hit(106);
             m.apply(&mut a, &mut b);
             m.apply(&mut t0, &mut t1);
             even ^= !m.4;
         }
     }
     if a == Uint::ONE {
+        #[cfg(feature = "recmo_uint_verif")]
+        crate::verif_hooks::hit(if even { 107 } else { 108 });
         // When `even` t0 is negative and in twos-complement form
         Some(if even { modulus + t0 } else { t0 })
     } else {
+        #[cfg(feature = "recmo_uint_verif")]
+        crate::verif_hooks::hit(109);
         None
     }
 }
